@@ -170,6 +170,11 @@ func panicOrigin(stack string) string {
 		if !seenPanic {
 			continue
 		}
+		// a panic raised inside the standard library (or a stub) belongs to whoever called it:
+		// walk down to the nearest emulator or harness frame
+		if !strings.Contains(fn, "github.com/scottyw/tetromino/") && !strings.HasPrefix(fn, "verif/") && !strings.HasPrefix(fn, "main.") {
+			continue
+		}
 		return fn
 	}
 	return ""
